@@ -90,6 +90,9 @@ def parse_lp_packet(wire: BinaryStr, with_tl: bool = True) -> (int | None, Binar
     """
     ret = parse_lp_packet_v2(wire, with_tl)
     if ret.nack is not None:
+        # A Nack header without NackReason means reason None (0)
+        if ret.nack.nack_reason is None:
+            return NackReason.NONE, ret.fragment
         return ret.nack.nack_reason, ret.fragment
     else:
         return None, ret.fragment
@@ -121,6 +124,8 @@ def parse_network_nack(wire: BinaryStr, with_tl: bool = True) -> (int | None, Bi
     ret = LpPacketValue.parse(wire, markers, ignore_critical=True)
 
     if ret.nack is not None:
+        if ret.nack.nack_reason is None:
+            return NackReason.NONE, ret.fragment
         return ret.nack.nack_reason, ret.fragment
     else:
         return None, None
